@@ -69,7 +69,13 @@ TOTPGen(e) ==
     IF Blank(req.secret) THEN (IF Fail(e) THEN "ok" ELSE "missing secret not refused")
     ELSE LET sec == IF HasInstant(req) THEN req.timestamp.w ELSE e.resp.timestamp.w
              per == PeriodOr30(req)
-         IN  IF ~HasInstant(req) /\ OK200(e) /\ ~(e.resp.timestamp.p /\ W!Leq(e.t0, sec) /\ W!Leq(sec, e.t1))
+             (* whether a code or a failure is due does not depend on the instant: classify with a dummy digest *)
+             Dummy(a, k, m) == [i \in 1..20 |-> 0]
+             cls == GenAtCounter(Dummy, Trim(req.secret.s, B32!SureWS), W!Zero, AlgOf(req), DigOf(req)).class
+         IN  IF ~HasInstant(req) /\ ~OK200(e)
+             THEN (IF cls = "value" THEN "a well-formed request is not answered with 200 and a code"
+                   ELSE IF Got(e) THEN "ok" ELSE "no response")
+             ELSE IF ~HasInstant(req) /\ OK200(e) /\ ~(e.resp.timestamp.p /\ W!Leq(e.t0, sec) /\ W!Leq(sec, e.t1))
              THEN "the reported timestamp is not the server's clock at the time of the exchange"
              ELSE IF ~InTimeDomain(sec) THEN "ok"
              ELSE IF ~StepIs(e.step0, sec, per) THEN (IF OK200(e) THEN "inc" ELSE IF Got(e) THEN "ok" ELSE "no response")
